@@ -35,6 +35,7 @@ class Obs : public SQuIDS {
  public:
   std::vector<SU_vector> H;
   Obs(unsigned nx, unsigned d, double ti) : SQuIDS(nx, d, 2, 0, ti) {}
+  Obs(Obs&& other) : SQuIDS(std::move(static_cast<SQuIDS&>(other))), H(other.H) {}
   SU_vector H0(double x, unsigned int irho) const override { return (4.0 * x) * H[irho]; }
   double perturb = 0;      // mode 2 only: a strong interaction while the refused Evolve runs
   SU_vector HI(unsigned int ix, unsigned int irho, double t) const override {
@@ -63,6 +64,13 @@ static std::unique_ptr<Obs> build(const Setup& s, const std::vector<long>& hist,
     for (int i = 0; i < s.d; i++) Hm(i, i) = (double)s.h[ir][i];
     o->H.push_back(vec_from_matrix(Hm));
   }
+  // an object that held other grids before (every kind in turn): the grid is what the LAST call gave
+  if (mode >= 1) {
+    o->Set_xrange(0.5, 0.5 + 3.0 * (s.nx - 1), "linear");
+    if (mode % 2 == 0) { std::vector<double> xs; for (int i = 0; i < s.nx; i++) xs.push_back(1.0 + i * i); o->Set_xrange(xs); }
+    if (mode == 3) o->Set_xrange(2.0, 2048.0, "log");
+    if (mode == 4) o->Set_xrange(-7.0, 11.0, "lin");
+  }
   if (s.kind == "lin") o->Set_xrange(s.g.front() / 4.0, s.g.back() / 4.0, "linear");
   else if (s.kind == "log") o->Set_xrange(s.g.front() / 4.0, s.g.back() / 4.0, "log");
   else { std::vector<double> xs; for (long k : s.g) xs.push_back(k / 4.0); o->Set_xrange(xs); }
@@ -88,6 +96,28 @@ static std::unique_ptr<Obs> build(const Setup& s, const std::vector<long>& hist,
     o->RestoreClock(ti);
     for (int ix = 0; ix < s.nx; ix++)
       for (int ir = 0; ir < 2; ir++) o->SetRho(ix, ir, comps_from_matrix(s.rho[ix][ir]));
+  }
+  if (mode == 3 || mode == 4) {
+    // The object queried is not the one that was configured: it received everything by move assignment (mode 3: the
+    // target had another initial time, another grid and another state before) or by move construction (mode 4), half
+    // way through the history.  The answers are functions of what the object now holds.
+    size_t half = hist.size() / 2;
+    for (size_t i = 0; i < half; i++) o->Evolve(hist[i] * M_PI / 4);
+    std::unique_ptr<Obs> q;
+    if (mode == 3) {
+      q.reset(new Obs(s.nx + 1, s.d, ti - 2.5));
+      for (int ir = 0; ir < 2; ir++) q->H.push_back(o->H[ir] * 3.0);
+      q->Set_xrange(1.0, 64.0, "log");
+      for (int ix = 0; ix <= s.nx; ix++) for (int ir = 0; ir < 2; ir++) q->SetRho(ix, ir, std::vector<double>(s.d * s.d, 0.375 * (ix + 1)));
+      q->Evolve(1.25);
+      q->H.clear();
+      for (int ir = 0; ir < 2; ir++) q->H.push_back(o->H[ir]);       // H is a member of the test class, not of SQuIDS
+      static_cast<SQuIDS&>(*q) = std::move(static_cast<SQuIDS&>(*o));
+    } else {
+      q.reset(new Obs(std::move(*o)));
+    }
+    for (size_t i = half; i < hist.size(); i++) q->Evolve(hist[i] * M_PI / 4);
+    return q;
   }
   for (long k : hist) o->Evolve(k * M_PI / 4);
   return o;
@@ -119,7 +149,7 @@ int main(int argc, char** argv) {
   std::string tag;
   long nq = 0;
   long last_sid = -1; std::vector<long> last_hist;
-  std::unique_ptr<Obs> objs[3]; long nrefused = 0, nmode2 = 0;
+  std::unique_ptr<Obs> objs[5]; long nrefused = 0, nmode2 = 0;
   while (std::cin >> tag) {
     if (tag == "S") {
       long sid; Setup s;
@@ -157,10 +187,11 @@ int main(int argc, char** argv) {
           objs[1].reset();
           if (allpos) objs[1] = build(s, hist, 1);
           objs[2] = build(s, hist, 2); nmode2++; if (objs[2]) nrefused++;
+          objs[3] = build(s, hist, 3); objs[4] = build(s, hist, 4);
         } catch (std::exception& e) { cur_mode = -1; mismatch("build", 0, 0, std::string("threw:") + e.what(), 1, 0); last_sid = -1; continue; }
         last_sid = sid; last_hist = hist;
       }
-      for (int mode = 0; mode < 3; mode++) {
+      for (int mode = 0; mode < 5; mode++) {
         if (!objs[mode]) continue;
         cur_mode = mode;
         const Obs& o = *objs[mode];
